@@ -170,6 +170,10 @@ pub enum ExportMangle {
     None,
     DuplicateAll,
     AddQos0,
+    /// not a mangle: the export is intact, but a server-side application restores it only after
+    /// the CONNECT of the returning client has been received (a broker learns from the CONNECT
+    /// whose session to restore)
+    LateRestore,
 }
 
 pub trait Endpoint {
@@ -782,7 +786,7 @@ where
         let mut h: Vec<P> = self.c.get_qos2_publish_handled().into_iter().collect();
         h.sort_unstable();
         match mangle {
-            ExportMangle::None => {}
+            ExportMangle::None | ExportMangle::LateRestore => {}
             ExportMangle::DuplicateAll => {
                 let d = pk.clone();
                 pk.extend(d);
